@@ -33,6 +33,10 @@ const (
 	kS1   = "s1"   // implements StreamableTool only, answers in one chunk
 	kS2   = "s2"   // implements StreamableTool only, answers in two chunks
 	kBoth = "both" // implements both (the streamable arm answers in two chunks)
+	// streamable-only, two chunks sent by a producer goroutine of the tool's own through an unbuffered pipe AFTER
+	// StreamableRun returned; the producer honours the context it was given: once that is cancelled it sends the
+	// context's error instead of the next chunk (a tool stream outlives the call that opened it)
+	kAsync = "sA"
 )
 
 // ways to fail
@@ -191,6 +195,30 @@ func (t *invTool) InvokableRun(ctx context.Context, args string, opts ...tool.Op
 type strTool struct{ core }
 
 func (t *strTool) StreamableRun(ctx context.Context, args string, opts ...tool.Option) (*schema.StreamReader[string], error) {
+	if t.w.sp.kind[t.name] == kAsync {
+		if err := t.w.body(t.name, "stream", args); err != nil {
+			return nil, err
+		}
+		sr, sw := schema.Pipe[string](0)
+		name := t.name
+		vsched.GoNamed("tool-producer:"+name, func() {
+			defer sw.Close()
+			chunks := []string{name + "(", args + ")"}
+			if f(name, args) == "" {
+				chunks = []string{"", ""}
+			}
+			for _, c := range chunks {
+				if err := ctx.Err(); err != nil {
+					sw.Send("", fmt.Errorf("tool %s: its context was cancelled while it was still answering: %w", name, err))
+					return
+				}
+				if sw.Send(c, nil) {
+					return
+				}
+			}
+		})
+		return sr, nil
+	}
 	return t.stream(args)
 }
 
@@ -206,7 +234,7 @@ func (t *bothTool) StreamableRun(ctx context.Context, args string, opts ...tool.
 func (w *world) tool(name string) tool.BaseTool {
 	c := core{w: w, name: name}
 	switch w.sp.kind[name] {
-	case kS1, kS2:
+	case kS1, kS2, kAsync:
 		return &strTool{c}
 	case kBoth:
 		return &bothTool{c}
@@ -683,6 +711,7 @@ type feat struct {
 	nFail    int  // actors failing in any way
 	nMid     int  // ... of which mid-stream
 	merge    bool // a Stream call that gets as far as merging >= 2 per-call streams (forwarder goroutines, select)
+	async    bool // some called tool answers from a producer goroutine of its own
 	twoChunk bool // some called tool streams two chunks in this mode (merge cost grows with the chunk count)
 	allYield bool
 	noYield  bool
@@ -735,7 +764,10 @@ func features(sp *spec) feat {
 		if sp.kind[u] != sp.kind[ft.used[0]] {
 			ft.uniform = false
 		}
-		if sp.mode == "stream" && (sp.kind[u] == kS2 || sp.kind[u] == kBoth) {
+		if sp.kind[u] == kAsync {
+			ft.async = true
+		}
+		if sp.mode == "stream" && (sp.kind[u] == kS2 || sp.kind[u] == kBoth || sp.kind[u] == kAsync) {
 			ft.twoChunk = true
 		}
 	}
@@ -773,6 +805,15 @@ var pb2StreamLists = map[string]bool{"t1+t2+t1": true, "u+t1+t2": true, "t2+t2+t
 // at small bounds, everything else is cheap.
 func menu(sp *spec, quick bool) (bool, []int) {
 	ft := features(sp)
+	if ft.async {
+		// tools with a producer of their own: success path of one- and two-call lists, bare node and inside a graph
+		ok := !sp.handler && !ft.hasU && ft.nFail == 0 && ft.allYield && ft.n <= 2 && (sp.host == "direct" || sp.host == "graph") &&
+			ft.kindIn(kAsync, kAsync+","+kInv, kInv+","+kAsync, kAsync+","+kS2)
+		if quick {
+			return ok, []int{0, 1}
+		}
+		return ok, []int{0, 1, 2}
+	}
 	if sp.listHost() {
 		// tools given per call: two-call lists, success and one failing tool, no handler
 		ok := !sp.handler && !ft.hasU && ft.n == 2 && ft.allYield && ft.nFail <= 1 && ft.nMid == 0 && ft.kindIn(kInv, kS2, kBoth)
@@ -857,10 +898,10 @@ func main() {
 	c := harness.Init("C17")
 	ctx = c
 	quick := c.Quick()
-	c.Res.Rule = "scenario = call list (length 1-3 over {t1,t2,unknown name}, repeats with different arguments, unique ids) x kind of every called tool (invokable-only, streamable-only 1 or 2 chunks, both) x failure of every called tool and of the handler (none, error, panic, mid-stream error) x UnknownToolsHandler present/absent x Invoke/Stream x bare ToolsNode / single node of a compiled graph x yields in tool bodies (0/1 per tool); every interleaving of the calling goroutine, the tool goroutines and (Stream) the merge forwarders within the preemption bound, both map orders for the in-graph variants; distinct/non-trivial = distinct scheduling signatures of scenarios with >= 2 of them; the outcome string carries the completion order of the tool bodies"
+	c.Res.Rule = "scenario = call list (length 1-3 over {t1,t2,unknown name}, repeats with different arguments, unique ids) x kind of every called tool (invokable-only, streamable-only 1 or 2 chunks, both, streamable-only with a producer goroutine of its own that honours its context) x failure of every called tool and of the handler (none, error, panic, mid-stream error) x UnknownToolsHandler present/absent x Invoke/Stream x bare ToolsNode / single node of a compiled graph x yields in tool bodies (0/1 per tool); every interleaving of the calling goroutine, the tool goroutines and (Stream) the merge forwarders within the preemption bound, both map orders for the in-graph variants; distinct/non-trivial = distinct scheduling signatures of scenarios with >= 2 of them; the outcome string carries the completion order of the tool bodies"
 	c.Res.Assumptions = []string{
 		"sequential consistency at synchronisation granularity; tool bodies are atomic between their explicit yields, framework code between two synchronisation operations is atomic",
-		"streamable tools answer from arrays / a pre-filled buffered pipe (no producer goroutine of their own), so a goroutine left blocked can only be the framework's",
+		"streamable tools answer from arrays / a pre-filled buffered pipe (no producer goroutine of their own), so a goroutine left blocked can only be the framework's; the one exception is the kind sA, whose producer goroutine (named tool-producer:<tool>) sends through an unbuffered pipe after StreamableRun returned and reports a cancelled context as a stream error",
 		"a bare ToolsNode has no enclosing run: a panic of the inline (first) tool reaching its direct caller as a panic is accepted there; inside a graph it must be a run error",
 		"when several tools fail, which failure is reported is not specified: any of them is accepted",
 		"happens-before state caching is used for Stream scenarios only (stream code is channel-synchronised; task slots are disjoint and read after WaitGroup.Wait; the harness recordings are ordered with vsched.Note); Invoke scenarios are explored without it",
@@ -886,7 +927,7 @@ func main() {
 			if base.hasU && handler {
 				actors = append(actors, unknownName)
 			}
-			kinds := assignments(base.used, func(string) []string { return []string{kInv, kS2, kBoth, kS1} })
+			kinds := assignments(base.used, func(string) []string { return []string{kInv, kS2, kBoth, kS1, kAsync} })
 			for _, kind := range kinds {
 				fails := assignments(actors, func(k string) []string {
 					if base.hasU && !handler {
